@@ -229,4 +229,35 @@ LEMMAS = [
               "assert pv(a, d, lo, lo + 1, 4) == a[lo] + d, 'head-digit'\n"
               "mod_small(a[lo] + d, ipow(4, k - 1), pv(a, d, lo + 1, lo + k, 4))",
     ),
+    dict(
+        name="mul_mono",            # multiplication by a non-negative factor is monotone
+        params={"w": "int", "a": "int", "b": "int"},
+        requires={"sign": "w >= 0", "order": "a <= b"},
+        ensures={"mono": "w * a <= w * b"},
+        proof="pass",
+    ),
+    dict(
+        name="mul_step",            # one step of the quotient chain: w * g0 >= (w * d) * g1 when g0 >= d * g1
+        params={"w": "int", "d": "int", "w1": "int", "g1": "int", "g0": "int"},
+        split={"d": [1, 2, 3, 4]},
+        requires={"signs": "w >= 1 and g1 >= 0", "division": "d * g1 <= g0", "next-weight": "w1 == w * d"},
+        ensures={"step": "w1 * g1 <= w * g0 and w1 >= 1"},
+        proof="mul_mono(w, d * g1, g0)",
+    ),
+    dict(
+        name="ipow_4_2",            # 4 ** e == 2 ** (2 * e)
+        params={"e": "int"},
+        requires={"exponent": "e >= 0"},
+        ensures={"square": "ipow(4, e) == ipow(2, 2 * e)"},
+        proof="h = 0\nwhile h < e:\n    h += 1",
+        loops={1: dict(invariant={"range": "0 <= h <= e", "square": "ipow(4, h) == ipow(2, 2 * h)"}, variant="e - h")},
+    ),
+    dict(
+        name="shift_append",        # (4v + j) mod 4m == 4 (v mod m) + j : appending a base-4 digit to a width-limited value drops the leading digit
+        params={"v": "int", "j": "int", "m": "int", "q": "int"},
+        split={"q": [0, 1, 2, 3]},
+        requires={"range": "m >= 1 and 0 <= j and j <= 3", "quotient": "q * m <= v and v < (q + 1) * m"},
+        ensures={"shift": "(v * 4 + j) % (4 * m) == (v % m) * 4 + j", "quotient": "v // m == q"},
+        proof="mod_small(q, m, v - q * m)\nmod_small(q, 4 * m, (v - q * m) * 4 + j)",
+    ),
 ]
